@@ -45,6 +45,9 @@ _PURE_METHODS = {
 }
 
 
+_SAFE_CALLABLES = (operator.eq, operator.and_, operator.or_, operator.ne)  # pure functions that may be passed in through env
+
+
 class _Lambda:
     def __init__(self, node, env, folder):
         self.node, self.env, self.folder = node, env, folder
@@ -191,6 +194,8 @@ def _fold(n, env):
             pass
         if isinstance(f, _Lambda):
             return f(*[_fold(a, env) for a in n.args])
+        if f in _SAFE_CALLABLES:
+            return f(*[_fold(a, env) for a in n.args])
         raise NotConstant(f"call {ast.unparse(n.func)}")
     raise NotConstant(type(n).__name__)
 
@@ -231,6 +236,14 @@ def _chain(node):
     return None
 
 
+class _Break(Exception):
+    pass
+
+
+class _Continue(Exception):
+    pass
+
+
 class _Return(Exception):
     def __init__(self, value):
         self.value = value
@@ -252,6 +265,8 @@ def fold_function(fn, env=None, max_steps=20000):
         _run(body, env, budget)
     except _Return as r:
         return r.value
+    if "__yield__" in env:
+        return env["__yield__"]  # a generator function: the list of yielded values
     return None
 
 
@@ -278,7 +293,12 @@ def _run(stmts, env, budget):
                 raise NotConstant("for-else")
             for item in list(_fold(s.iter, env)):
                 _bind(s.target, item, env)
-                _run(s.body, env, budget)
+                try:
+                    _run(s.body, env, budget)
+                except _Break:
+                    break
+                except _Continue:
+                    continue
         elif isinstance(s, ast.If):
             _run(s.body if _fold(s.test, env) else s.orelse, env, budget)
         elif isinstance(s, ast.Return):
@@ -287,6 +307,12 @@ def _run(stmts, env, budget):
             pass
         elif isinstance(s, ast.Expr) and isinstance(s.value, ast.Constant):
             pass
+        elif isinstance(s, ast.Expr) and isinstance(s.value, ast.Yield):
+            env.setdefault("__yield__", []).append(_fold(s.value.value, env) if s.value.value is not None else None)
+        elif isinstance(s, ast.Break):
+            raise _Break()
+        elif isinstance(s, ast.Continue):
+            raise _Continue()
         elif isinstance(s, ast.Expr) and isinstance(s.value, ast.Call) and isinstance(s.value.func, ast.Attribute) and s.value.func.attr in ("append", "add", "update", "extend"):
             recv = _fold(s.value.func.value, env)
             if not isinstance(recv, (list, set, dict, bytearray)):
